@@ -216,8 +216,13 @@ def run(ctx):
         rjobs.append((case, params, ncells, ctx.seed))
         payloads[case] = {"kind": "random", "ncells": ncells, **params}
         ctx.add_case(payloads[case])
-    rjobs.sort(key=lambda j: -j[2])
-    results += core.parallel_map(_random_job, rjobs, chunksize=1)
+    for lo in range(0, len(rjobs), 240):                      # batches bound the memory held by projected traces
+        batch = sorted(rjobs[lo:lo + 240], key=lambda j: -j[2])
+        if lo + 240 < len(rjobs):
+            _settle(ctx, core.parallel_map(_random_job, batch, chunksize=1),
+                    {j[0]: payloads[j[0]] for j in batch}, stats)
+        else:
+            results += core.parallel_map(_random_job, batch, chunksize=1)
     # shipped dumps, abstract dump from the independent reader
     shipped = sorted(os.path.relpath(p, core.REPO) for p in
                      glob.glob(os.path.join(core.REPO, "tests", "data", "**", "*.dmp"), recursive=True))
